@@ -94,3 +94,39 @@ package keeper
 //@   ensures #c04-unfarm-pool-coin-only: result == nil ==> d == old(k.GetPool(ctx, msg.AppId, msg.PoolId).0.PoolCoinDenom) && amt > 0
 //@   ensures #c04-unfarm-custody: result == nil ==> bal(lm, d) == old(bal(lm, d)) - amt && bal(fa, d) == old(bal(fa, d)) + amt
 //@   ensures #c04-unfarm-within-farmed: result == nil ==> amt <= farmed
+
+// Limit order placement (C07): what is taken from the orderer is exactly the order's offer coin plus the swap-fee reserve
+// computed from it (the same formula FinishOrder settles against), all of it goes into the pair escrow, and the stored
+// order starts with remaining offer coin = offer coin and nothing received.
+//@ func (k Keeper) LimitOrder
+//@   property C07
+//@   let pair = k.GetPair(ctx, msg.AppId, msg.PairId).0
+//@   let esc = addr(pair.EscrowAddress)
+//@   let own = addr(msg.Orderer)
+//@   let d = msg.OfferCoin.Denom
+//@   requires #params-exist: k.GetGenericLiquidityParams(ctx, msg.AppId).1
+//@   requires #accounts: esc != own
+//@   requires #pair-keyed: k.GetPair(ctx, msg.AppId, msg.PairId).1 ==> pair.Id == msg.PairId && pair.AppId == msg.AppId
+//@   let rate = k.GetGenericLiquidityParams(ctx, msg.AppId).0.SwapFeeRate
+//@   ensures #c07-taken-is-offer-plus-fee-reserve: result1 == nil ==> bal(own, d) == old(bal(own, d)) - result0.OfferCoin.Amount - feeOf(rate, result0.OfferCoin.Amount) && bal(esc, d) == old(bal(esc, d)) + result0.OfferCoin.Amount + feeOf(rate, result0.OfferCoin.Amount)
+//@   ensures #c07-never-more-than-offered: result1 == nil ==> result0.OfferCoin.Amount + feeOf(rate, result0.OfferCoin.Amount) <= msg.OfferCoin.Amount && result0.OfferCoin.Denom == d
+//@   ensures #c07-order-starts-unspent: result1 == nil ==> result0.RemainingOfferCoin == result0.OfferCoin && result0.ReceivedCoin.Amount == 0 && result0.Orderer == msg.Orderer && result0.AppId == msg.AppId && result0.PairId == msg.PairId
+//@   ensures #c07-order-stored: result1 == nil ==> k.GetOrder(ctx, msg.AppId, msg.PairId, result0.Id).1 && k.GetOrder(ctx, msg.AppId, msg.PairId, result0.Id).0 == result0
+
+// Market order placement (C07), same statement as for limit orders: what is taken from the orderer is exactly the order's offer coin plus the swap-fee reserve
+// computed from it (the same formula FinishOrder settles against), all of it goes into the pair escrow, and the stored
+// order starts with remaining offer coin = offer coin and nothing received.
+//@ func (k Keeper) MarketOrder
+//@   property C07
+//@   let pair = k.GetPair(ctx, msg.AppId, msg.PairId).0
+//@   let esc = addr(pair.EscrowAddress)
+//@   let own = addr(msg.Orderer)
+//@   let d = msg.OfferCoin.Denom
+//@   requires #params-exist: k.GetGenericLiquidityParams(ctx, msg.AppId).1
+//@   requires #accounts: esc != own
+//@   requires #pair-keyed: k.GetPair(ctx, msg.AppId, msg.PairId).1 ==> pair.Id == msg.PairId && pair.AppId == msg.AppId
+//@   let rate = k.GetGenericLiquidityParams(ctx, msg.AppId).0.SwapFeeRate
+//@   ensures #c07-taken-is-offer-plus-fee-reserve: result1 == nil ==> bal(own, d) == old(bal(own, d)) - result0.OfferCoin.Amount - feeOf(rate, result0.OfferCoin.Amount) && bal(esc, d) == old(bal(esc, d)) + result0.OfferCoin.Amount + feeOf(rate, result0.OfferCoin.Amount)
+//@   ensures #c07-never-more-than-offered: result1 == nil ==> result0.OfferCoin.Amount + feeOf(rate, result0.OfferCoin.Amount) <= msg.OfferCoin.Amount && result0.OfferCoin.Denom == d
+//@   ensures #c07-order-starts-unspent: result1 == nil ==> result0.RemainingOfferCoin == result0.OfferCoin && result0.ReceivedCoin.Amount == 0 && result0.Orderer == msg.Orderer && result0.AppId == msg.AppId && result0.PairId == msg.PairId
+//@   ensures #c07-order-stored: result1 == nil ==> k.GetOrder(ctx, msg.AppId, msg.PairId, result0.Id).1 && k.GetOrder(ctx, msg.AppId, msg.PairId, result0.Id).0 == result0
